@@ -50,7 +50,8 @@ type Read struct {
 	D   int `json:"d"`
 	PK  int `json:"pk"`
 	Sub int `json:"sub,omitempty"`
-	// K > 0: the reader's context cancels itself during its K-th Done()/Err() call.
+	// K > 0: the reader's context cancels itself during its K-th Done()/Err() call; K < 0: it is
+	// cancelled before Await is called.
 	K int `json:"k,omitempty"`
 }
 
@@ -64,6 +65,12 @@ type Read struct {
 //	         (a read racing with its own cancellation; it may return the value or the context
 //	         error), then check that the database loop still consumes messages (an expiry of the
 //	         unused duty 0 must be received)
+//	astore : an abandoned Store(D, {PK: V}): its caller's context is cancelled at a controlled point,
+//	         Mode "before" (cancelled before the call), "k" (during its K-th Done()/Err() call) or
+//	         "during" (by a hook in the value's MarshalJSON, i.e. while the store compares it with
+//	         the existing data; for v1 the hook — which runs in the Run goroutine — also waits until
+//	         the abandoned Store call has returned).  It may or may not take effect (observed by a
+//	         probe read); afterwards the database loop must still consume messages
 //	probe  : Store(D, {PK: V}) of a fresh key and an Await of it, started together: both must complete
 //	par    : start the readers Rs and a Store(D, Es) concurrently (store goroutine launched after
 //	         the first Pos readers), then wait for quiescence
@@ -76,8 +83,9 @@ type Op struct {
 	Es  []Entry `json:"es,omitempty"`
 	Rs  []Read  `json:"rs,omitempty"`
 	Pos int     `json:"pos,omitempty"`
-	K   int     `json:"k,omitempty"`
-	V   int     `json:"v,omitempty"`
+	K    int    `json:"k,omitempty"`
+	V    int    `json:"v,omitempty"`
+	Mode string `json:"mode,omitempty"`
 }
 
 // History is a script, the implementation it ran against and the labels observed.
@@ -281,6 +289,8 @@ func (x *runner) start(rd Read) *reader {
 	var ctx context.Context = base
 	if rd.K > 0 {
 		ctx = &cancelAtCtx{Context: base, cancel: cancel, at: int64(rd.K)}
+	} else if rd.K < 0 {
+		cancel() // abandoned before the call
 	}
 	r := &reader{Read: rd, cancel: cancel}
 	x.open = append(x.open, r)
@@ -335,7 +345,7 @@ func (x *runner) collect() map[int]ret {
 func (x *runner) lookups(rs []*reader, got map[int]ret, wake bool) {
 	for _, r := range rs {
 		g, ok := got[r.R]
-		selfCancelled := ok && g.val < 0 && r.K > 0
+		selfCancelled := ok && g.val < 0 && r.K != 0
 		if x.v1() {
 			if ok && g.val >= 0 {
 				x.emit("LAnswer %d %d", r.R, g.val)
@@ -430,6 +440,161 @@ func (x *runner) wedge(format string, a ...any) {
 	x.anom("wedged: "+format, a...)
 }
 
+// hookedData is a core.SignedData that runs a hook (once) when it is serialised, i.e. at the
+// moment the store compares it with the data already stored under the key.
+type hookedData struct {
+	core.SignedData
+
+	once *sync.Once
+	hook func()
+}
+
+func (d hookedData) Clone() (core.SignedData, error) { return d, nil }
+
+func (d hookedData) MarshalJSON() ([]byte, error) {
+	d.once.Do(d.hook)
+	return d.SignedData.MarshalJSON()
+}
+
+// ping checks that the database loop still consumes messages (expiry of the unused duty 0).
+func (x *runner) ping(what string) bool {
+	ok, got := x.deliver(0)
+	if !ok {
+		x.wedge("%s the database loop no longer receives from the deadliner channel: every later Await and Store hangs", what)
+		return false
+	}
+	if x.v1() {
+		x.emit("LExpire 0")
+	} else {
+		x.emit("LExpire2 0")
+	}
+	x.lookups(x.openBefore(got), got, false)
+	x.quiet()
+	return true
+}
+
+// opAStore: a Store abandoned by its caller at a controlled point.
+func (x *runner) opAStore(op Op) {
+	d, e := op.D, Entry{PK: op.PK, V: op.V}
+	before := append([]*reader(nil), x.open...)
+	if len(before) > x.maxBlk {
+		x.maxBlk = len(before)
+	}
+	base, cancel := context.WithCancel(x.root)
+	defer cancel()
+	var ctx context.Context = base
+	returned := make(chan struct{})
+	val := mkValue(d, e.PK, e.V)
+	mode := op.Mode
+	if mode == "during" && core.IsSyncSubcommitteeDuty(types[d%4]) {
+		mode = "k" // SyncSubcommitteeIndex switches on the concrete type: no wrapper for these duties
+	}
+	switch mode {
+	case "before":
+		cancel()
+	case "k":
+		k := op.K
+		if k <= 0 {
+			k = 2
+		}
+		ctx = &cancelAtCtx{Context: base, cancel: cancel, at: int64(k)}
+	case "during":
+		val = hookedData{SignedData: val, once: new(sync.Once), hook: func() {
+			cancel()
+			if x.v1() {
+				select {
+				case <-returned:
+				case <-x.stop:
+				}
+			}
+		}}
+	}
+	var (
+		done bool
+		err  error
+	)
+	go func() {
+		e := x.db.Store(ctx, toDuty(d), core.SignedDataSet{toPK(op.PK): val})
+		x.mu.Lock()
+		err, done = e, true
+		x.mu.Unlock()
+		close(returned)
+	}()
+	got := x.collect()
+	x.mu.Lock()
+	isDone, serr := done, err
+	x.mu.Unlock()
+	if !isDone {
+		x.wedge("abandoned Store(duty %d, mode %s) did not return although every goroutine is blocked", d, op.Mode)
+		return
+	}
+	res := ""
+	switch {
+	case serr == nil:
+		res = "WOk"
+	case errors.Is(serr, context.Canceled):
+		res = "?"
+	case strings.Contains(serr.Error(), "mismatching data"):
+		res = "WMismatch"
+	default:
+		x.anom("abandoned Store returned unexpected error %q", serr.Error())
+		return
+	}
+	var probes []func()
+	if res == "?" { // did it take effect? (both are admissible)
+		x.nextPro++
+		p := Read{R: 1000 + x.nextPro, D: d, PK: e.PK, Sub: subOf(d, e.V)}
+		pr := x.start(p)
+		pg := x.collect()
+		g, ok := pg[p.R]
+		res = ""
+		if ok && g.val == e.V {
+			res = "WOk"
+		}
+		for rid := range pg {
+			if rid != p.R {
+				x.anom("reader %d returned during a probe read", rid)
+			}
+		}
+		probes = append(probes, func() {
+			x.begin(p)
+			x.lookups([]*reader{pr}, pg, false)
+			x.quiet()
+		})
+		if !ok {
+			pr.cancel()
+			cg := x.collect()
+			if c, ok := cg[p.R]; !ok || c.val >= 0 {
+				x.anom("probe reader %d did not return its context error", p.R)
+			}
+			probes = append(probes, func() {
+				if x.v1() {
+					x.emit("LCancel %d", p.R)
+				} else {
+					x.emit("LCancel2 %d", p.R)
+				}
+				x.quiet()
+			})
+		}
+	}
+	k := keyTerm(d, e.PK, subOf(d, e.V))
+	if res != "" {
+		if x.v1() {
+			x.emit("LWrite %s %d %s", k, e.V, res)
+		} else {
+			x.emit("LStore %d [(%s, %d)] %s", d, k, e.V, res)
+		}
+		x.lookups(before, got, true)
+	} else if len(got) > 0 { // readers returned although the store had no visible effect
+		x.lookups(x.openBefore(got), got, true)
+	}
+	x.quiet()
+	for _, p := range probes {
+		p()
+	}
+	x.ping(fmt.Sprintf("after an abandoned Store (duty %d, mode %s)", d, op.Mode))
+}
+
 // opCread: a read that races with its own cancellation, then a liveness check of the loop.
 func (x *runner) opCread(rd Read) {
 	if x.used[rd.R] {
@@ -440,18 +605,7 @@ func (x *runner) opCread(rd Read) {
 	x.begin(rd)
 	x.lookups([]*reader{r}, got, false)
 	x.quiet()
-	ok, got2 := x.deliver(0)
-	if !ok {
-		x.wedge("after read %d (context cancelled during its Done/Err call number %d) the database loop no longer receives from the deadliner channel: every later Await and Store hangs", rd.R, rd.K)
-		return
-	}
-	if x.v1() {
-		x.emit("LExpire 0")
-	} else {
-		x.emit("LExpire2 0")
-	}
-	x.lookups(x.openBefore(got2), got2, false)
-	x.quiet()
+	x.ping(fmt.Sprintf("after read %d (context cancelled during its Done/Err call number %d)", rd.R, rd.K))
 }
 
 // openBefore lists the readers that returned in got (they are no longer in x.open).
@@ -671,6 +825,8 @@ func runScript(t *testing.T, impl string, script []Op) (labels []string, anomaly
 				x.opStore(op.D, op.Es, op.Rs, op.Pos)
 			case "cread":
 				x.opCread(Read{R: op.R, D: op.D, PK: op.PK, Sub: op.Sub, K: op.K})
+			case "astore":
+				x.opAStore(op)
 			case "probe":
 				x.opStore(op.D, []Entry{{PK: op.PK, V: op.V}}, []Read{{R: op.R, D: op.D, PK: op.PK, Sub: subOf(op.D, op.V)}}, 0)
 			case "cancel":
@@ -832,6 +988,39 @@ func (g *gen) cread(d, k int, present bool) {
 	g.noteRead(rd)
 }
 
+// astore: an abandoned store of the same value / other data under a present key, or of a new key.
+func (g *gen) astore(d int) {
+	modes := []string{"during", "during", "k", "k", "before"}
+	op := Op{Op: "astore", D: d, PK: 1 + g.r.Intn(g.pks), V: 1 + g.r.Intn(g.vals), Mode: modes[g.r.Intn(len(modes))], K: 1 + g.r.Intn(3)}
+	var ks []gkey
+	for k := range g.present {
+		if k.d == d {
+			ks = append(ks, k)
+		}
+	}
+	sort.Slice(ks, func(i, j int) bool { return ks[i].pk*2+ks[i].sub < ks[j].pk*2+ks[j].sub })
+	if len(ks) > 0 && g.r.Intn(4) > 0 {
+		c := ks[g.r.Intn(len(ks))]
+		op.PK, op.V = c.pk, g.present[c]
+		if g.r.Intn(3) > 0 { // other data under the same key
+			op.V = g.present[c] + 2
+			if op.V > maxV {
+				op.V = g.present[c] - 2
+			}
+		}
+	}
+	g.ops = append(g.ops, op)
+	// the mirror does not know whether it took effect: treat the key as unknown from now on
+	k := gkey{d, op.PK, subOf(d, op.V)}
+	if _, ok := g.present[k]; !ok {
+		for r, bk := range g.blocked {
+			if bk == k {
+				delete(g.blocked, r)
+			}
+		}
+	}
+}
+
 // probe: a fresh key is stored and read at the same time; both must complete.
 func (g *gen) probe(d int) {
 	g.nProbe++
@@ -886,8 +1075,10 @@ func genScript(r *rand.Rand, kind string) []Op {
 				g.store(d, g.entries(d, 2+r.Intn(2), r.Intn(2) == 0))
 			case x < 72:
 				g.cancel()
+			case x < 74:
+				g.astore(d)
 			case x < 76:
-				g.cread(d, 1+r.Intn(4), r.Intn(3) > 0)
+				g.cread(d, []int{-1, 1, 2, 3, 4}[r.Intn(5)], r.Intn(3) > 0)
 				if r.Intn(3) == 0 {
 					g.probe(d)
 				}
@@ -980,6 +1171,29 @@ func genScript(r *rand.Rand, kind string) []Op {
 		g.await(d)
 		g.store(d, g.entries(d, g.pks, true))
 		g.probe(g.duty())
+	case "abandon": // abandoned stores and reads, then liveness: present keys readable, new keys storable, waiters woken
+		d := g.duty()
+		g.pks = 2 + r.Intn(2)
+		g.store(d, g.entries(d, 1+r.Intn(2), false))
+		for i := 0; i < 1+r.Intn(3); i++ {
+			g.await(d)
+		}
+		n := 3 + r.Intn(8)
+		for i := 0; i < n; i++ {
+			switch r.Intn(5) {
+			case 0:
+				g.cread(d, []int{-1, -1, 1, 2, 3}[r.Intn(5)], r.Intn(2) == 0)
+			default:
+				g.astore(d)
+			}
+			if r.Intn(4) == 0 {
+				g.await(d)
+			}
+		}
+		g.await(d)
+		g.probe(d)
+		g.store(d, g.entries(d, g.pks, false)) // wakes whoever still waits for these keys
+		g.store(d, g.entries(d, g.pks, true))
 	case "par": // many concurrent readers racing with stores
 		d := g.duty()
 		g.pks = 1 + r.Intn(2)
@@ -1000,8 +1214,14 @@ func corpus() [][]Op {
 		wedge = append(wedge, Op{Op: "cread", R: 1 + i, D: 40, PK: 1, K: 1 + (i+1)%2*1 + i%8/7*2})
 	}
 	wedge = append(wedge, Op{Op: "await", R: 100, D: 40, PK: 1}, Op{Op: "probe", R: 101, D: 40, PK: 9, V: 2})
+	// seeded C17-r6m2: a conflicting re-store abandoned while the actor compares the data
+	abandon := []Op{{Op: "store", D: 40, Es: []Entry{{PK: 1, V: 1}}}, {Op: "await", R: 1, D: 40, PK: 2},
+		{Op: "astore", D: 40, PK: 1, V: 3, Mode: "during"}, {Op: "astore", D: 40, PK: 1, V: 3, Mode: "k", K: 2},
+		{Op: "astore", D: 40, PK: 1, V: 1, Mode: "during"}, {Op: "astore", D: 40, PK: 3, V: 1, Mode: "k", K: 2}, {Op: "astore", D: 40, PK: 1, V: 3, Mode: "before"},
+		{Op: "await", R: 2, D: 40, PK: 1}, {Op: "probe", R: 3, D: 40, PK: 9, V: 2}, {Op: "store", D: 40, Es: []Entry{{PK: 2, V: 1}}}}
 	return [][]Op{
 		wedge,
+		abandon,
 		// F3: two readers wait for one key, one store (v2 before 8db1efa wakes only one)
 		{{Op: "await", R: 1, D: 41, PK: 1}, {Op: "await", R: 2, D: 41, PK: 1}, {Op: "store", D: 41, Es: []Entry{{PK: 1, V: 1}}}},
 		// F3: three readers over two keys; the token could go to the reader of the other key
@@ -1067,6 +1287,8 @@ func TestGen(t *testing.T) {
 			kind = "par"
 		case x < 13:
 			kind = "cancelrace"
+		case x < 15:
+			kind = "abandon"
 		}
 		scripts = append(scripts, sc{kind, genScript(r, kind)})
 	}
